@@ -4,7 +4,9 @@ DIGESTS = {
     "_get_atom_setters": {"ALL": "3223d1880cd194f6"},
     "_parseCifBlock": {"ALL": "02fcd6a96799f17e"},
     "_parse_lattice": {"ALL": "ce7c302c9d9247d8"},
-    "_parse_atom_site_label": {"ALL": "2199026341d3198c"},
+    # SOColumn: translators of a row run in column order; SOTypeFirst: the adp-type translator first (stable);
+    # SOTypeFirstCartnLast: in addition the three Cartesian translators after all others
+    "_parse_atom_site_label": {"SOColumn": "2199026341d3198c", "SOTypeFirst": "f43668c47b7672fb", "SOTypeFirstCartnLast": "251e9839b468f5b0"},
     "_parse_atom_site_aniso_label": {"ALL": "2d166274d0c4640b"},
     "_parse_space_group_symop_operation_xyz": {"ALL": "29eb4f62e4c9ad81"},
     # LSPlain: label += "_" + str(j + 1);  LSFresh: the same numbering, skipping labels that are already taken
